@@ -32,20 +32,22 @@ decreasing_by omega
 
 def zeros (n : Nat) : Bytes := List.replicate n 48
 
-/-- Number::toString layout of `(−1)^neg × 0.d₁…d_k × 10^n`; `ds = []` is zero. -/
-def numberToString (neg : Bool) (ds : List Nat) (n : Int) : Bytes :=
-  let sign : Bytes := if neg then [45] else []
+/-- Steps 5–10 for the magnitude `0.d₁…d_k × 10^n`; `ds = []` is zero. -/
+def layout (ds : List Nat) (n : Int) : Bytes :=
   let k : Int := ds.length
-  let body : Bytes :=
-    if ds = [] then [48]
-    else if k ≤ n ∧ n ≤ 21 then ds.map dig ++ zeros (n - k).toNat
-    else if 0 < n ∧ n ≤ 21 then (ds.take n.toNat).map dig ++ [46] ++ (ds.drop n.toNat).map dig
-    else if -6 < n ∧ n ≤ 0 then [48, 46] ++ zeros (-n).toNat ++ ds.map dig
-    else
-      let e : Bytes := [101] ++ (if n - 1 < 0 then [45] else [43]) ++ (decimal (n - 1).natAbs).map dig
-      if ds.length = 1 then ds.map dig ++ e
-      else (ds.take 1).map dig ++ [46] ++ (ds.drop 1).map dig ++ e
-  sign ++ body
+  if ds = [] then [48]
+  else if k ≤ n ∧ n ≤ 21 then ds.map dig ++ zeros (n - k).toNat
+  else if 0 < n ∧ n ≤ 21 then (ds.take n.toNat).map dig ++ [46] ++ (ds.drop n.toNat).map dig
+  else if -6 < n ∧ n ≤ 0 then [48, 46] ++ zeros (-n).toNat ++ ds.map dig
+  else
+    let e : Bytes := [101] ++ (if n - 1 < 0 then [45] else [43]) ++ (decimal (n - 1).natAbs).map dig
+    if ds.length = 1 then ds.map dig ++ e
+    else (ds.take 1).map dig ++ [46] ++ (ds.drop 1).map dig ++ e
+
+/-- Number::toString layout of `(−1)^neg × 0.d₁…d_k × 10^n` (step 3: a leading '-' for negative values;
+the sign of zero is kept). -/
+def numberToString (neg : Bool) (ds : List Nat) (n : Int) : Bytes :=
+  (if neg then [45] else []) ++ layout ds n
 
 /-- Well-formed decomposition: every digit < 10, and for a non-zero value the first digit is not 0
 (the last is not 0 either when the digits are the shortest ones; the layout does not need that). -/
@@ -66,29 +68,32 @@ def afterFrac (r : Bytes) : Bool :=
   | c :: t =>
     if c == 101 || c == 69 then
       match t with
-      | 43 :: u => afterExpSign u
-      | 45 :: u => afterExpSign u
-      | _ => afterExpSign t
+      | [] => false
+      | s :: u => if s == 43 || s == 45 then afterExpSign u else afterExpSign t
     else false
 
 def afterInt (r : Bytes) : Bool :=
   match r with
-  | 46 :: t => (match t with
-      | c :: _ => isDigit c && afterFrac (t.dropWhile isDigit)
-      | [] => false)
-  | _ => afterFrac r
+  | [] => true
+  | c :: t =>
+    if c == 46 then
+      match t with
+      | d :: _ => isDigit d && afterFrac (t.dropWhile isDigit)
+      | [] => false
+    else afterFrac r
 
 def unsignedNumber (b : Bytes) : Bool :=
   match b with
-  | 48 :: r => afterInt r
-  | c :: r => (49 ≤ c && c ≤ 57) && afterInt (r.dropWhile isDigit)
   | [] => false
+  | c :: r =>
+    if c == 48 then afterInt r
+    else (49 ≤ c && c ≤ 57) && afterInt (r.dropWhile isDigit)
 
 /-- `b` is exactly one JSON number. -/
 def isJsonNumber (b : Bytes) : Bool :=
   match b with
-  | 45 :: t => unsignedNumber t
-  | _ => unsignedNumber b
+  | [] => false
+  | c :: t => if c == 45 then unsignedNumber t else unsignedNumber b
 
 /-! ### the decimal value denoted by a JSON number text: `(−1)^neg × coef × 10^exp10` -/
 
